@@ -83,7 +83,7 @@ def verify(sd):
 def runchecks(sd, props, tier):
     meta = json.load(open(os.path.join(sd, "meta.json")))
     own = meta.get("property") or meta.get("breaks")
-    todo = [own] + [p for p in props if p != own]
+    todo = ([own] if own else []) + [p for p in props if p != own]
     wt = scratch()
     out = {}
     try:
